@@ -14,12 +14,16 @@ import (
 	"crypto/tls"
 	"crypto/x509"
 	"crypto/x509/pkix"
+	"encoding/json"
 	"encoding/pem"
 	"errors"
 	"fmt"
 	"math/big"
 	mrand "math/rand"
+	"net/http"
+	"net/http/httptest"
 	"sort"
+	"strconv"
 	"strings"
 	"sync"
 	"time"
@@ -1428,9 +1432,125 @@ func main() {
 			}
 		}
 	}
-	wg.Add(2)
+	// 3d. the consul KV source (cert/consul_source.go): ConsulSource -> blocking KV queries ->
+	// loadCertificates -> TLSConfig, against a fake KV endpoint of this process.  The key prefix
+	// goes through a sequence of states (a set, the prefix deleted, another set, keys none of
+	// which is a *.pem key, a set with a key that has no certificate, the first set again); after
+	// each state has settled, handshakes.  Same model and same demand as for the directories:
+	// a source that has nothing usable at the moment leaves the working set alone.
+	kvCerts := make([]*gcert, 6)
+	for i := range kvCerts {
+		kvCerts[i] = mkCert(fmt.Sprintf("kv%d.example", i), nil)
+	}
+	kvNames := []string{"kv0.example", "kv1.example", "kv2.example", "KV3.example", "kv5.example", "other.example"}
+	kvStates := []dirState{
+		{"A", map[string]*pfile{"z-cert.pem": certFile(kvCerts[0]), "z-key.pem": keyFile(1), "m.pem": combinedFile(kvCerts[1], 1)}},
+		{"prefix-deleted", map[string]*pfile{}},
+		{"B", map[string]*pfile{"b-cert.pem": certFile(kvCerts[2]), "b-key.pem": keyFile(1), "a.pem": combinedFile(kvCerts[3], 1)}},
+		{"no-pem-key", map[string]*pfile{"README": textFile("nothing here at the moment"), "x.pem.bak": combinedFile(kvCerts[4], 1)}},
+		{"C-with-orphan-key", map[string]*pfile{"c-cert.pem": certFile(kvCerts[5]), "c-key.pem": keyFile(1), "d-key.pem": keyFile(1)}},
+		{"prefix-deleted-again", map[string]*pfile{}},
+		{"A-again", map[string]*pfile{"z-cert.pem": certFile(kvCerts[0]), "z-key.pem": keyFile(1), "m.pem": combinedFile(kvCerts[1], 1)}},
+	}
+	kvResults := []*dres{{strict: true, picks: map[string][]string{}}, {strict: false, picks: map[string][]string{}}}
+	runKV := func() {
+		defer wg.Done()
+		var mu sync.Mutex
+		index := 10
+		cur := map[string][]byte{}
+		srv := httptest.NewServer(http.HandlerFunc(func(w http.ResponseWriter, r *http.Request) {
+			if !strings.HasPrefix(r.URL.Path, "/v1/kv/certs") {
+				http.NotFound(w, r)
+				return
+			}
+			want := r.URL.Query().Get("index")
+			for i := 0; i < 25; i++ { // a blocking query: answer when the index has moved, or after 500 ms
+				mu.Lock()
+				moved := want == "" || want == "0" || strconv.Itoa(index) != want
+				mu.Unlock()
+				if moved {
+					break
+				}
+				time.Sleep(20 * time.Millisecond)
+			}
+			mu.Lock()
+			defer mu.Unlock()
+			w.Header().Set("X-Consul-Index", strconv.Itoa(index))
+			if len(cur) == 0 {
+				w.WriteHeader(http.StatusNotFound)
+				return
+			}
+			type kvp struct {
+				Key         string
+				Value       []byte
+				ModifyIndex int
+			}
+			var out []kvp
+			for k, v := range cur {
+				out = append(out, kvp{"certs/" + k, v, index})
+			}
+			w.Header().Set("Content-Type", "application/json")
+			json.NewEncoder(w).Encode(out)
+		}))
+		defer srv.Close()
+		var cfgs []*tls.Config
+		for _, d := range kvResults {
+			cfg, err := cert.TLSConfig(cert.ConsulSource{CertURL: srv.URL + "/v1/kv/certs"}, d.strict, 0, 0, nil)
+			if err != nil {
+				panic(err)
+			}
+			cfgs = append(cfgs, cfg)
+		}
+		pos := map[*gcert]int{}
+		for _, st := range kvStates {
+			var fs []string
+			for f, pf := range st.files {
+				if pf.cert != nil && filepath.Ext(f) == ".pem" && !strings.HasSuffix(f, "-key.pem") {
+					fs = append(fs, f)
+				}
+			}
+			sort.Strings(fs)
+			for i, f := range fs {
+				pos[st.files[f].cert] = i
+			}
+		}
+		for _, st := range kvStates {
+			b := blocks{}
+			next := map[string][]byte{}
+			for f, pf := range st.files {
+				next[f] = pf.data
+				b[f] = pf
+			}
+			mu.Lock()
+			cur = next
+			index++
+			mu.Unlock()
+			time.Sleep(1500 * time.Millisecond)
+			for i, d := range kvResults {
+				d.states = append(d.states, step{kind: "map", name: st.name, b: b})
+				for _, sn := range kvNames {
+					c, err := cfgs[i].GetCertificate(&tls.ClientHelloInfo{ServerName: sn})
+					p := "PNone"
+					switch {
+					case errors.Is(err, cert.ErrNoCertsStored):
+						p = "PErrNoCerts"
+					case c != nil:
+						p = vh.App("PCert", vh.Nat(1000))
+						for _, g := range kvCerts {
+							if bytes.Equal(g.tls.Certificate[0], c.Certificate[0]) {
+								p = vh.App("PCert", vh.Nat(pos[g]))
+							}
+						}
+					}
+					d.picks[sn] = append(d.picks[sn], p)
+				}
+			}
+		}
+	}
+	wg.Add(3)
 	go runDir(dirStates, dirCerts, dirNames, dirResults)
 	go runDir(truncStates, truncCerts, truncNames, truncResults)
+	go runKV()
 	wg.Wait()
 	for _, res := range results {
 		items := make([]string, len(res.script))
@@ -1465,6 +1585,18 @@ func main() {
 		}
 		for _, sn := range truncNames {
 			run.Add("directory-truncated-file", vh.App("CWatch", "false", vh.List(items), vh.HxS(sn), vh.Bool(d.strict), "None", vh.List(d.picks[sn])),
+				map[string]interface{}{"states": human, "server_name": sn, "strict": d.strict, "picks": d.picks[sn]})
+		}
+	}
+	for _, d := range kvResults {
+		items := make([]string, len(d.states))
+		var human []string
+		for i, st := range d.states {
+			items[i] = st.coq()
+			human = append(human, st.name)
+		}
+		for _, sn := range kvNames {
+			run.Add("consul-kv-to-store", vh.App("CWatch", "false", vh.List(items), vh.HxS(sn), vh.Bool(d.strict), "None", vh.List(d.picks[sn])),
 				map[string]interface{}{"states": human, "server_name": sn, "strict": d.strict, "picks": d.picks[sn]})
 		}
 	}
